@@ -259,6 +259,8 @@ def normalise(tree: ast.AST, rel: str, src: Optional[str] = None) -> int:
             continue
         n_canon = 0
         try:
+            if rsrc and "next(" not in rsrc:
+                n_canon += canon.expand_next_search(fn)
             ref_nested = {n.name for n in ast.walk(ast.parse(rsrc)) if isinstance(n, ast.FunctionDef)} if rsrc else set()
             n_canon += canon.inline_local_functions(fn, keep=ref_nested)
             n_canon += canon.drop_redundant_rebindings(fn)
@@ -408,6 +410,18 @@ def build_reference(repo_modules) -> Dict[str, Dict[str, List[List[str]]]]:
                 sigs.setdefault(n.name, []).append(ps)
             elif isinstance(n, (ast.FunctionDef, ast.AsyncFunctionDef)):
                 sigs.setdefault(n.name, []).append(["*"])
+    # functions (by bare name, unique in the repository) whose every return is a constructor call or a display: never None
+    rets: Dict[str, List[bool]] = {}
+    for rel, tree, src in repo_modules:
+        for n in ast.walk(tree):
+            if isinstance(n, (ast.FunctionDef, ast.AsyncFunctionDef)):
+                rs = [r for r in ast.walk(n) if isinstance(r, ast.Return)]
+                good = bool(rs) and all(r.value is not None and (isinstance(r.value, (ast.Tuple, ast.List, ast.Dict, ast.Set)) or (
+                    isinstance(r.value, ast.Call) and ((isinstance(r.value.func, ast.Name) and r.value.func.id[:1].isupper())
+                                                       or (isinstance(r.value.func, ast.Attribute) and r.value.func.attr[:1].isupper())))) for r in rs) \
+                    and not any(isinstance(x, (ast.Yield, ast.YieldFrom)) for x in ast.walk(n))
+                rets.setdefault(n.name, []).append(good)
+    out["__nonnull__"] = sorted(k for k, v in rets.items() if len(v) == 1 and v[0])
     ctor: Dict[str, List[List[str]]] = {}
     for rel, tree, src in repo_modules:
         for n in ast.walk(tree):
